@@ -9,7 +9,7 @@ PROPS["C02"] = P(
     "random lengths up to 2^17 quick / 2^24 thorough, and in thorough/UBC spans of 2^32-1, 2^32, 2^32+1 bits in vectors of 2^32+ and 2^33+ bits. "
     "A cell is (structure variant | stratum class incl. tail state); distinct_nontrivial counts cells in which a vector held both a 0 and a 1 (so that both in-range and out-of-range ranks exist), "
     "or an aimed stratum, or an all-ones/all-zeros stratum of at least 512 bits",
-    dict(builds=["DBG", "UBC"]),
+    dict(builds=["DBG", "UBC"], budget=45),
     dict(builds=["DBG", "UBC", "ASAN", "MIRI"], shards={"MIRI": 6, "ASAN": 3, "DBG": 3, "UBC": 4}),
     hang="violation",
     level_text="Exploration: hundreds of thousands of (structure, parameters, vector) combinations executed on the real crate, every answer compared with the position lists of an independent Vec<bool> model, "
